@@ -137,6 +137,8 @@ impl Path {
     }
 
     pub(crate) fn explore_state(&mut self) {
+        #[cfg(tokio_rs_loom_verif)]
+        crate::verif::emit(|| "API explore".to_string());
         if !self.skipping {
             assert!(!self.exploring, "not in critical state");
             self.exploring = true;
@@ -144,6 +146,8 @@ impl Path {
     }
 
     pub(crate) fn critical(&mut self) {
+        #[cfg(tokio_rs_loom_verif)]
+        crate::verif::emit(|| "API critical".to_string());
         if !self.skipping {
             assert!(self.exploring, "not in exploring state");
             self.exploring = false;
@@ -151,6 +155,8 @@ impl Path {
     }
 
     pub(crate) fn skip_branch(&mut self) {
+        #[cfg(tokio_rs_loom_verif)]
+        crate::verif::emit(|| "API skip".to_string());
         self.exploring = false;
         self.skipping = true;
     }
@@ -172,6 +178,8 @@ impl Path {
 
     /// Push a new atomic-load branch
     pub(super) fn push_load(&mut self, seed: &[u8]) {
+        #[cfg(tokio_rs_loom_verif)]
+        crate::verif::emit(|| format!("API push_load {:?}", seed));
         assert_path_len!(self.branches);
 
         let load_ref = self.branches.insert(Load {
@@ -213,11 +221,16 @@ impl Path {
 
         self.pos += 1;
 
+        #[cfg(tokio_rs_loom_verif)]
+        crate::verif::emit(|| format!("API branch_load -> {}", load.values[load.pos as usize]));
+
         load.values[load.pos as usize] as usize
     }
 
     /// Branch on spurious notifications
     pub(super) fn branch_spurious(&mut self) -> bool {
+        #[cfg(tokio_rs_loom_verif)]
+        crate::verif::emit(|| "API branch_spurious".to_string());
         if self.is_traversed() {
             assert_path_len!(self.branches);
 
@@ -234,6 +247,10 @@ impl Path {
             .spur;
 
         self.pos += 1;
+
+        #[cfg(tokio_rs_loom_verif)]
+        crate::verif::emit(|| format!("API branch_spurious -> {}", spurious as u8));
+
         spurious
     }
 
@@ -282,6 +299,11 @@ impl Path {
                 }
             }
 
+            #[cfg(tokio_rs_loom_verif)]
+            crate::verif::emit(|| {
+                format!("API branch_thread seed {}", verif_threads(&schedule.threads))
+            });
+
             // Ensure at least one thread is active, otherwise toggle a yielded
             // thread.
             if active.is_none() {
@@ -325,6 +347,17 @@ impl Path {
 
         self.pos += 1;
 
+        #[cfg(tokio_rs_loom_verif)]
+        crate::verif::emit(|| {
+            format!(
+                "API branch_thread -> {}",
+                match schedule.active_thread_index() {
+                    Some(i) => i.to_string(),
+                    None => "-".to_string(),
+                }
+            )
+        });
+
         schedule
             .threads
             .iter()
@@ -334,6 +367,8 @@ impl Path {
     }
 
     pub(super) fn backtrack(&mut self, mut point: usize, thread_id: thread::Id) {
+        #[cfg(tokio_rs_loom_verif)]
+        crate::verif::emit(|| format!("API backtrack {} {}", point, thread_id.as_usize()));
         let schedule = loop {
             if let Some(schedule_ref) =
                 object::Ref::from_usize(point).downcast::<Schedule>(&self.branches)
@@ -543,5 +578,72 @@ impl Thread {
 
     fn is_disabled(&self) -> bool {
         *self == Thread::Disabled
+    }
+}
+
+#[cfg(tokio_rs_loom_verif)]
+fn verif_threads(threads: &[Thread]) -> String {
+    threads
+        .iter()
+        .map(|th| match th {
+            Thread::Disabled => 'D',
+            Thread::Skip => 'S',
+            Thread::Yield => 'Y',
+            Thread::Pending => 'P',
+            Thread::Active => 'A',
+            Thread::Visited => 'V',
+        })
+        .collect()
+}
+
+#[cfg(tokio_rs_loom_verif)]
+impl Path {
+    /// One-line dump of every field of the path and of every entry.
+    pub(crate) fn verif_dump(&self) -> String {
+        fn opt<T: ToString>(v: Option<T>) -> String {
+            match v {
+                Some(v) => v.to_string(),
+                None => "-".to_string(),
+            }
+        }
+
+        let mut out = format!(
+            "pos={} ex={} skip={} eos={} bound={} cap={}",
+            self.pos,
+            self.exploring as u8,
+            self.skipping as u8,
+            self.exploring_on_start as u8,
+            opt(self.preemption_bound),
+            self.branches.capacity(),
+        );
+
+        for entry in self.branches.verif_entries() {
+            match entry {
+                Entry::Schedule(s) => out.push_str(&format!(
+                    " | S pre={} ia={} prev={} ex={} th={}",
+                    s.preemptions,
+                    opt(s.initial_active),
+                    opt(s.prev.map(|r| r.verif_index())),
+                    s.exploring as u8,
+                    verif_threads(&s.threads),
+                )),
+                Entry::Load(l) => out.push_str(&format!(
+                    " | L vals={} pos={} ex={}",
+                    l.values[..l.len as usize]
+                        .iter()
+                        .map(|v| v.to_string())
+                        .collect::<Vec<_>>()
+                        .join("."),
+                    l.pos,
+                    l.exploring as u8,
+                )),
+                Entry::Spurious(p) => out.push_str(&format!(
+                    " | P spur={} ex={}",
+                    p.spur as u8, p.exploring as u8
+                )),
+            }
+        }
+
+        out
     }
 }
